@@ -205,6 +205,9 @@ pub open spec fn tmp_untouched(t: TmpV, s: Set<u32>) -> bool {
     forall|x: u32| #![trigger s.contains(x)] #![trigger t.puts.contains_key(x)] #![trigger t.deleted.contains(x)] s.contains(x) ==> !t.puts.contains_key(x) && !t.deleted.contains(x)
 }
 
+/// the view a staging area is created under (rule R14): the transaction in scope, or the frozen tree view of the pass
+pub trait FreshCtx { spec fn has_tree(&self, i: u16, id: u32) -> bool; }
+impl FreshCtx for Txn { open spec fn has_tree(&self, i: u16, id: u32) -> bool { self.view().contains_key(tkey(i, id)) } }
 /// Stand-in for parallel.rs::TmpNodes (ASSUMED contract, drift-guarded): a staging area of puts and removals
 #[verifier::external_body]
 pub struct TmpNodes { x: u8 }
@@ -218,15 +221,15 @@ impl TmpNodes {
     /// the database when the staging area was created (assumption A5, see ConcurrentNodeIds::covers)
     pub uninterp spec fn taken(&self) -> spec_fn(u16) -> Set<u32>;
     #[verifier::external_body]
-    pub fn new_g_(txn: &Txn) -> (r: heed::Result<TmpNodes>)
+    pub fn new_g_<C: FreshCtx>(ctx: &C) -> (r: heed::Result<TmpNodes>)
         ensures r matches Ok(t) ==> t.tv().puts == IMap::<u32, TNode>::empty() && t.tv().deleted == Set::<u32>::empty() && t.rm() == Map::<u32, u32>::empty() && t.allocated() == Set::<u32>::empty()
-                && (forall|i: u16, id: u32| #![trigger txn.view().contains_key(tkey(i, id))] txn.view().contains_key(tkey(i, id)) ==> (t.taken())(i).contains(id)),
+                && (forall|i: u16, id: u32| #![trigger ctx.has_tree(i, id)] ctx.has_tree(i, id) ==> (t.taken())(i).contains(id)),
             r matches Err(e) ==> e is Io || e is Heed
     { unimplemented!() }
     #[verifier::external_body]
-    pub fn new_in_g_(path: &PathBuf, txn: &Txn) -> (r: heed::Result<TmpNodes>)
+    pub fn new_in_g_<C: FreshCtx>(path: &PathBuf, ctx: &C) -> (r: heed::Result<TmpNodes>)
         ensures r matches Ok(t) ==> t.tv().puts == IMap::<u32, TNode>::empty() && t.tv().deleted == Set::<u32>::empty() && t.rm() == Map::<u32, u32>::empty() && t.allocated() == Set::<u32>::empty()
-                && (forall|i: u16, id: u32| #![trigger txn.view().contains_key(tkey(i, id))] txn.view().contains_key(tkey(i, id)) ==> (t.taken())(i).contains(id)),
+                && (forall|i: u16, id: u32| #![trigger ctx.has_tree(i, id)] ctx.has_tree(i, id) ==> (t.taken())(i).contains(id)),
             r matches Err(e) ==> e is Io || e is Heed
     { unimplemented!() }
     /// the real `put` asserts item != ItemId::MAX
